@@ -1033,7 +1033,11 @@ class TransactionBuilder:
         # There is no way to determine certificate index here
 
         if self.mint:
-            sorted_mint_policies = sorted(self.mint.keys(), key=lambda x: x.to_cbor())
+            # Rank the policies among those the body will carry: a policy whose quantities are all zero
+            # is dropped from the mint field when it is serialized (MultiAsset normalizes a copy of itself).
+            sorted_mint_policies = sorted(
+                deepcopy(self.mint).normalize().keys(), key=lambda x: x.to_cbor()
+            )
         else:
             sorted_mint_policies = []
         if self.withdrawals:
